@@ -21,3 +21,28 @@ Theorem C05_join_kinds_handled :
   forallb (fun s => str_eqb s w_inner || str_eqb s w_innerunique || str_eqb s w_leftouter) join_types = true.
 Proof. exact join_types_handled. Qed.
 Print Assumptions C05_join_kinds_handled.
+
+(** ** the printed statement re-reads as the subqueries it was printed from (token level) *)
+From PQL Require Import Spec.SqlRead Proofs.ReadBack Proofs.ReadBackStmt.
+
+(** For every list of subqueries whose expressions the parser could build (and no parameters in
+    scope), what the compiler prints -- [WITH name AS (select), ...] select ; -- viewed as SQL
+    tokens is read by the reference statement reader of coq/Spec/SqlRead.v as exactly that list:
+    one statement, ended by one semicolon, every CTE under its own name, every SELECT with its
+    columns and aliases, its source (table or join with its condition), WHERE, GROUP BY, ORDER BY
+    (direction and null placement) and LIMIT, every expression read under the dialect's
+    precedence as its intended tree.  For every sufficiently large reader fuel. *)
+Theorem C05_statement_reads : forall source sc vals, scope_inv sc vals -> forall ctes q w body,
+  Forall (subq_wf sc) ctes -> subq_wf sc q ->
+  write_ctes source (mkCtx sc ModeDefault) ctes = Ok w -> write_subq source (mkCtx sc ModeDefault) q = Ok body ->
+  exists ts, ptoks ((match ctes with [] => [] | _ => lit "WITH " end) ++ w ++ body ++ lit ";") = Some ts /\
+    Conv (fun fx => read_stmt fx ts) (map (fun s => (sq_name s, den_select source sc vals s)) ctes, den_select source sc vals q).
+Proof. exact statement_reads. Qed.
+Print Assumptions C05_statement_reads.
+
+Theorem C05_select_reads : forall source sc vals, scope_inv sc vals -> forall s ps, subq_wf sc s ->
+  write_subq source (mkCtx sc ModeDefault) s = Ok ps ->
+  exists ts, ptoks ps = Some ts /\ forall rest, endtok rest ->
+    Conv (fun fx => read_select fx (ts ++ rest)) (den_select source sc vals s, rest).
+Proof. exact write_subq_reads. Qed.
+Print Assumptions C05_select_reads.
